@@ -909,7 +909,54 @@ func (d *Discharger) solveOne(ob *Obligation, ci int, text string) (cr chunkResT
 		return a, first, agree
 	}
 	// stage 0: cheaper variants (fewer hypotheses), briefly each
-	if ci < len(ob.variants) {
+	if ci < len(ob.variants) && !d.thorough && len(ob.variants[ci]) > 0 {
+		// quick tier: all variants and the full query at once on the usually fastest back end; the first proof wins
+		type vres struct {
+			vi int
+			a  string
+		}
+		ctx, cancel := context.WithCancel(context.Background())
+		n := len(ob.variants[ci]) + 1
+		ch := make(chan vres, n)
+		for vi, vt := range ob.variants[ci] {
+			lf := filepath.Join(d.dir, fmt.Sprintf("%s.v%d.smt2", base, vi))
+			os.WriteFile(lf, []byte(vt), 0o644)
+			go func(vi int, lf string) {
+				d.sem <- struct{}{}
+				a0, _ := runBackend(ctx, backends[0], lf, 6)
+				<-d.sem
+				ch <- vres{vi, a0}
+			}(vi, lf)
+		}
+		go func() {
+			d.sem <- struct{}{}
+			a0, _ := runBackend(ctx, backends[0], file, 6)
+			<-d.sem
+			ch <- vres{-1, a0}
+		}()
+		won := false
+		fullSat := false
+		for k := 0; k < n; k++ {
+			r := <-ch
+			if r.a == "unsat" && !won {
+				won = true
+				cr.answer = "unsat"
+				cr.backend = backends[0].name
+				cr.agree = []string{backends[0].name}
+				cr.light = r.vi >= 0
+				cr.quick = r.vi == 0
+				cancel()
+			}
+			if r.vi == -1 && r.a == "sat" {
+				fullSat = true
+			}
+		}
+		cancel()
+		if won {
+			return cr
+		}
+		_ = fullSat
+	} else if ci < len(ob.variants) {
 		for vi, vt := range ob.variants[ci] {
 			lf := filepath.Join(d.dir, fmt.Sprintf("%s.v%d.smt2", base, vi))
 			os.WriteFile(lf, []byte(vt), 0o644)
@@ -924,9 +971,6 @@ func (d *Discharger) solveOne(ob *Obligation, ci int, text string) (cr chunkResT
 			cr.agree = []string{backends[0].name}
 			cr.light = true
 			cr.quick = vi == 0
-			if !d.thorough {
-				return cr
-			}
 			lfc := filepath.Join(d.dir, fmt.Sprintf("%s.v%d.cvc5.smt2", base, vi))
 			os.WriteFile(lfc, []byte("(set-logic ALL)\n"+vt), 0o644)
 			d.sem <- struct{}{}
